@@ -163,6 +163,26 @@ ADDED5 = {
 for _k, _v in ADDED5.items():
     _t = CHECKS[_k]
     CHECKS[_k] = (_t[0] + " " + _v, _t[1], _t[2])
+# round 9 (DESIGN.md 12.4)
+ADDED6 = {
+ "C03": "Round 9: list-valued left-hand sides against lists of lists (the value is compared as a whole) and short lists against flat literals: the negated clause flips.",
+ "C04": "Round 9: the history dimension across documents - 2-3 data files in one validate run in every order must each get the statuses they get alone.",
+ "C05": "Round 9: json_parse of objects with several members walked by wildcards and key filters.",
+ "C07": "Round 9: failing checks on variables that hold literals (file and rule level, either side) on plain, CloudFormation- and Terraform-shaped documents.",
+ "C08": "Round 9: parameterised rules recursing through when / query blocks / negation and a terminating recursion; substring at every pair of byte offsets of strings with multi-byte characters and the other string functions on them; outcome classes split into normal result / diagnostic.",
+ "C09": "Round 9: every listed check is re-evaluated from the values it names; overlapping multi-valued query-to-query comparisons, right-hand side also through a variable.",
+ "C10": "Round 9: keys the rules spell in another letter case than the document (stuck points of the query spelled like the document).",
+ "C12": "Round 9: test cases with different expectation sets; per-case entries of `test -o json / yaml` against the case alone; suite exit code.",
+ "C13": "Round 9: membership of a list value in a list of lists, four polarities.",
+ "C14": "Round 9: documents whose keys are in another letter case than the rules in the verdict comparison of every spelling variant.",
+ "C16": "Round 9: prefix-related names (with `-`, `_`, `0` after the shared part) for the file under test and its neighbours in `test --dir`.",
+ "C17": "Round 9: parameter files named through symbolic links and a -i directory of links.",
+ "C18": "Round 9: substring indices around 2^8, 2^15, 2^16, 2^31, 2^32 and 2^63, both signs (reference corrected from the documentation).",
+ "C19": "Round 9: values that coincide under some normalisation (letter case, numeric spelling, Unicode composition, prefix, type) in all pairs and in triples.",
+}
+for _k, _v in ADDED6.items():
+    _t = CHECKS[_k]
+    CHECKS[_k] = (_t[0] + " " + _v, _t[1], _t[2])
 PENDING_REASON = "check under construction in this round (design in DESIGN.md section 5); not claimed until its quick tier runs clean on the unchanged tree"
 ALL = ["C%02d" % i for i in range(1, 20)]
 m = {
